@@ -55,6 +55,18 @@ func (p *IdentityProvider) attributeQueryHandleFunc(w http.ResponseWriter, r *ht
 			if err != nil {
 				return err
 			}
+			if attrQuery == nil {
+				err = fmt.Errorf("request contains no attribute query")
+				return err
+			}
+			if attrQuery.Issuer == nil {
+				err = fmt.Errorf("attribute query contains no issuer")
+				return err
+			}
+			if attrQuery.Subject.NameID == nil {
+				err = fmt.Errorf("attribute query contains no subject nameID")
+				return err
+			}
 			return nil
 		},
 		func() {
